@@ -5,7 +5,8 @@ except NameError:
     def assume(cond):
         return None
 from collections import OrderedDict, ChainMap
-from glom.core import TargetRegistry, UnregisteredTarget, _DEFAULT_SCOPE, glom
+from glom.core import TargetRegistry, UnregisteredTarget, _DEFAULT_SCOPE, glom, _get_sequence_item, _AbstractIterable, _ObjStyleKeys
+import operator
 
 
 def get_handler_ref(self, op, obj, path=None, raise_exc=True):
@@ -104,3 +105,30 @@ def module_register_ref(target_type, **kwargs):
     """module-level register(): the default scope's registry, nothing else"""
     _DEFAULT_SCOPE[TargetRegistry].register(target_type, **kwargs)
     return None
+
+
+def registry_init_ref(self, register_default_types=True):
+    """a new registry owns all of its state (handler maps, type trees, memo, auto map: fresh objects, nothing shared with any other registry),
+    registers the built-in operations, then -- unless told otherwise -- the default types"""
+    self._op_type_map = {}
+    self._op_type_tree = {}
+    self._type_cache = {}
+    self._op_auto_map = OrderedDict()
+    self._register_builtin_ops()
+    if register_default_types:
+        self._register_default_types()
+
+
+def default_types_ref(self):
+    """default registrations, in this order (later registrations of unrelated types take precedence in the fuzzy tree, so the order is
+    observable): object (attribute access for everything), the concrete containers dict / list / tuple / OrderedDict, and only then the two
+    structural duck types (_AbstractIterable for iteration, _ObjStyleKeys for the keys of plain objects)"""
+    self.register(object)
+    self.register(dict, get=operator.getitem)
+    self.register(dict, keys=dict.keys)
+    self.register(list, get=_get_sequence_item)
+    self.register(tuple, get=_get_sequence_item)
+    self.register(OrderedDict, get=operator.getitem)
+    self.register(OrderedDict, keys=OrderedDict.keys)
+    self.register(_AbstractIterable, iterate=iter)
+    self.register(_ObjStyleKeys, keys=_ObjStyleKeys.get_keys)
